@@ -108,6 +108,24 @@ def correspondence(ctx):
             s.verify, s.start = True, 1
         s.meta = {"i": i}
         scns.append(s)
+    # long merkle branches in ONE blk file read front to back by one reader: the file is several times the 32 KiB read buffer
+    # and almost all of it is branch hashes, so buffer refills fall INSIDE branches (a section must be consumed exactly even
+    # when the underlying reader returns short at a refill boundary)
+    for coin in ("namecoin", "dogecoin"):
+        blocks = GC.gen_chain(r, coin, 12 if not ctx.thorough() else 30, max_txs=2, auxpow_mix=False)
+        for b in blocks[1:]:
+            b.version = K.AUXPOW[coin] + r.randrange(0, 3)
+            b.auxpow = K.auxpow_section(r, nbranch1=r.randrange(100, 140), nbranch2=r.randrange(100, 140))
+        prev = blocks[0].hash()
+        for b in blocks[1:]:
+            b.prev = prev
+            prev = b.hash()
+        for key, xor in ((None, None), ("k", bytes([7, 1, 2, 3, 4, 5, 6, 9]))):
+            s = K.Scenario(coin=coin, callback="csvdump")
+            s.xorkey = xor
+            GC.simple_layout(s, blocks)
+            s.meta = {"straddle": coin, "xor": bool(xor)}
+            scns.append(s)
     bb.check(ctx, "auxpow-chains", scns, CMP, nontrivial=lambda s, m: s.coin in K.AUXPOW)
 
 
